@@ -102,6 +102,14 @@ Definition tables (d : nat) : list bool := [
   arity_s BootstrapWitness =? arity_r bootstrap_witness;
   arity_s (Transaction d) =? arity_r transaction;
   arity_s (untag_s UnitInterval) =? 2;
+  (* block types; header bodies: the library's two flat shapes against the flat rules, and the Conway rule has 10 items *)
+  arity_s VRFCert =? arity_r vrf_cert;
+  arity_s OperationalCert =? arity_r operational_cert;
+  arity_s Header =? arity_r header;
+  arity_s (Block d) =? arity_r block;
+  arity_s HeaderBody =? arity_r header_body_tpraos;
+  arity_s HeaderBodyPraos =? arity_r header_body_flat_praos;
+  arity_r header_body =? 10;
   (* tags *)
   list_eqb N.eqb (schema_tags UnitInterval) (rule_tags unit_interval);
   list_eqb N.eqb (schema_tags TransactionInputs) (rule_tags (RSet 0 transaction_input));
